@@ -11,7 +11,7 @@ import (
 func main() {
 	t := time.Now()
 	cnt := map[string]int{}
-	st := cfgcorpus.Enumerate("quick", func(e cfgcorpus.Entry) bool {
+	st := cfgcorpus.Enumerate("thorough", func(e cfgcorpus.Entry) bool {
 		k := e.ID[:1]
 		if strings.Contains(e.ID, "/crlf") {
 			k += "crlf"
